@@ -955,10 +955,34 @@ func (e *Exec) unwrapErr(err Iface) (Iface, bool) {
 		return Iface{}, false
 	}
 	if _, isSlice := under(res.At(0).Type()).(*types.Slice); isSlice {
-		e.unsupported("Unwrap() []error")
+		return Iface{}, false // a joined error: see unwrapMulti
 	}
 	r := e.CallValue(m, err.V).(Iface)
 	return r, true
+}
+
+// unwrapMulti: the errors a value with Unwrap() []error (errors.Join, fmt.Errorf
+// with several %w) wraps; errors.Is / errors.As descend into each in order.
+func (e *Exec) unwrapMulti(err Iface) ([]Iface, bool) {
+	if err.T == nil {
+		return nil, false
+	}
+	m := e.methodByName(err.T, "Unwrap")
+	if m == nil || m.Signature.Params().Len() != 0 || m.Signature.Results().Len() != 1 {
+		return nil, false
+	}
+	if _, isSlice := under(m.Signature.Results().At(0).Type()).(*types.Slice); !isSlice {
+		return nil, false
+	}
+	s := e.CallValue(m, err.V).(Slice)
+	n := e.ConcInt(s.Len)
+	out := make([]Iface, 0, n)
+	for i := 0; i < n; i++ {
+		if el, ok := s.St.peek(e.o(s) + i).(Iface); ok {
+			out = append(out, el)
+		}
+	}
+	return out, true
 }
 
 func modelErrorsIs(e *Exec, c *frame, fn *ssa.Function, a []Value) Value {
@@ -966,21 +990,33 @@ func modelErrorsIs(e *Exec, c *frame, fn *ssa.Function, a []Value) Value {
 	if err.T == nil || target.T == nil {
 		return sym.Bool(err.T == nil && target.T == nil)
 	}
+	return sym.Bool(e.errIs(err, target))
+}
+
+func (e *Exec) errIs(err, target Iface) bool {
 	comparable := types.Comparable(target.T)
 	for {
 		if comparable && types.Identical(err.T, target.T) {
 			if e.Branch(e.valueEq(err.T, err.V, target.V)) {
-				return sym.Bool(true)
+				return true
 			}
 		}
 		if m := e.methodByName(err.T, "Is"); m != nil && m.Signature.Params().Len() == 1 {
 			if e.Branch(e.CallValue(m, err.V, target).(sym.Sc)) {
-				return sym.Bool(true)
+				return true
 			}
+		}
+		if many, ok := e.unwrapMulti(err); ok {
+			for _, child := range many {
+				if child.T != nil && e.errIs(child, target) {
+					return true
+				}
+			}
+			return false
 		}
 		next, ok := e.unwrapErr(err)
 		if !ok || next.T == nil {
-			return sym.Bool(false)
+			return false
 		}
 		err = next
 	}
@@ -996,21 +1032,32 @@ func modelErrorsAs(e *Exec, c *frame, fn *ssa.Function, a []Value) Value {
 	if !ok || tp == nil {
 		panic(targetPanic{litString("errors: target must be a non-nil pointer")})
 	}
-	want := pt.Elem()
+	return sym.Bool(e.errAs(err, target, pt.Elem(), tp))
+}
+
+func (e *Exec) errAs(err, target Iface, want types.Type, tp *Value) bool {
 	for err.T != nil {
 		if it, isI := under(want).(*types.Interface); isI {
 			if types.Implements(err.T, it) {
 				*tp = err
-				return sym.Bool(true)
+				return true
 			}
 		} else if types.Identical(err.T, want) {
 			*tp = copyVal(err.V)
-			return sym.Bool(true)
+			return true
 		}
 		if m := e.methodByName(err.T, "As"); m != nil && m.Signature.Params().Len() == 1 {
 			if e.Branch(e.CallValue(m, err.V, target).(sym.Sc)) {
-				return sym.Bool(true)
+				return true
 			}
+		}
+		if many, ok := e.unwrapMulti(err); ok {
+			for _, child := range many {
+				if e.errAs(child, target, want, tp) {
+					return true
+				}
+			}
+			return false
 		}
 		next, ok := e.unwrapErr(err)
 		if !ok {
@@ -1018,7 +1065,7 @@ func modelErrorsAs(e *Exec, c *frame, fn *ssa.Function, a []Value) Value {
 		}
 		err = next
 	}
-	return sym.Bool(false)
+	return false
 }
 
 // ---- context ----
